@@ -63,10 +63,13 @@ def r08_1(ctx: Ctx) -> None:
     from ..flow import fact_texts, inline_reaching
 
     def covered(loop: ast.For) -> List[str]:
-        resolved = inline_reaching(cfg, loop, loop.iter)
-        names = [dotted(n)[5:] for n in ast.walk(resolved) if isinstance(n, ast.Attribute) and dotted(n)
+        resolved = [inline_reaching(cfg, loop, loop.iter)]
+        if isinstance(resolved[0], ast.Name):
+            # a list assembled before the loop (bound once, then appended to)
+            resolved += bound_from(func, resolved[0].id)
+        names = [dotted(n)[5:] for expr in resolved for n in ast.walk(expr) if isinstance(n, ast.Attribute) and dotted(n)
                  and dotted(n).startswith("self.") and dotted(n)[5:] in lists]
-        return names
+        return sorted(set(names))
     all_loops = [n for n in walk_local(func) if isinstance(n, ast.For)]
     for loop in all_loops:
         names = covered(loop)
@@ -271,6 +274,54 @@ def r08_3(ctx: Ctx) -> None:
         raise AnalysisError(f"record.py: expected at least 2 bisection-bounded windows, found {count}")
 
 
+def r08_5(ctx: Ctx) -> None:
+    """ a bisection window over the record's sorted list of regions: a region that spans the origin sorts first (its
+        comparison key is negative), but the genes of its pre-origin part sort after every other region - the window
+        around the gene's bisection point never reaches it.  The code base's idiom for this is `lst[i:] + lst[:1]`
+        (formation._find_neighbouring); a window without the first element loses those genes. """
+    from .bisect_lint import scan_bounds
+    from ..flow import inline_reaching
+    lists = collection_lists(ctx)
+    qual = "Record._link_cds_to_parent"
+    func = ctx.fn(REC, qual)
+    cfg = CFG(func)
+    count = 0
+    for loop in [n for n in walk_local(func) if isinstance(n, ast.For)]:
+        source = inline_reaching(cfg, loop, loop.iter)
+        if isinstance(source, ast.Name):
+            values = bound_from(func, source.id)
+            if len(values) == 1:
+                source = values[0]
+        windows = [n for n in ast.walk(source) if isinstance(n, ast.Subscript) and isinstance(n.slice, ast.Slice)
+                   and dotted(n.value) and dotted(n.value).startswith("self.") and dotted(n.value)[5:] in lists
+                   and (n.slice.lower is not None or n.slice.upper is not None)]
+        bounded = [w for w in windows if any(node is w or txt(node) == txt(w) for node, _, _, _ in scan_bounds(func))
+                   or "bisect" in txt(inline_reaching(cfg, loop, w))]
+        for window in bounded:
+            lst = dotted(window.value)
+            if lists[lst[5:]] != "Region":
+                continue
+            count += 1
+            text = txt(source)
+            # the iterated list itself may be completed by statements before the loop (append / insert of lst[0])
+            extra = ""
+            if isinstance(loop.iter, ast.Name):
+                for call in calls(func):
+                    if isinstance(call.func, ast.Attribute) and txt(call.func.value) == loop.iter.id \
+                            and call.func.attr in ("append", "insert", "extend") and cfg.dominates(cfg.n(call), cfg.n(loop)) is not None \
+                            and cfg.exists_path(cfg.n(call), cfg.n(loop)):
+                        extra += " " + txt(call)
+            first_included = any(f"{lst}{idx}" in text + extra for idx in ("[:1]", "[0]", "[0:1]"))
+            ctx.ob("R08.5", REC, loop, qual, f"window over {lst}", first_included,
+                   "the window over the sorted regions around the gene's bisection point also offers the gene to the first "
+                   "region (a region spanning the origin sorts first whatever the position of the genes in its pre-origin part)",
+                   detail="" if first_included else "a gene in the pre-origin part of an origin-spanning region, added after the "
+                                                     "regions, is never offered to that region when other regions exist",
+                   form=(text + extra)[:160])
+    if count < 1:
+        raise AnalysisError(f"{qual}: the bisection window over the regions was not found")
+
+
 def r08_4(ctx: Ctx) -> None:
     """ the look-ahead of the gene lookup: a gene that starts inside the query but runs past its end may hide genes
         nested inside *it* that do lie within the query; the scan goes on while the next gene is nested in the current one """
@@ -309,3 +360,5 @@ def run(ctx: Ctx) -> None:
     ctx.rule("R08.3", "bisection windows over the sorted gene/region lists include ties", floor=3)
     r08_3(ctx)
     r08_4(ctx)
+    ctx.rule("R08.5", "bisection windows over the sorted regions also reach an origin-spanning first region", floor=1)
+    r08_5(ctx)
